@@ -212,7 +212,7 @@ func CheckC16(c *C16Case, st *Stats) error {
 
 func init() {
 	Register("C16",
-		"rapid-generated value trees (as C02, shared instances, 1001-1500 nesting levels and containers obtained by parsing lenient spellings included) x indent drawn from {-1000,-3,-1,0..10,11,14,2^40} weighted to the boundaries. Inside 0..10 the output must be non-empty, accepted by the strict scanner, denote the generated tree, equal byte-for-byte the canonical layout re-created from its own raw tokens, consist of exactly the raw tokens of String() (members matched by key), and be read back by the library as the same container with the same kinds; outside it must panic; container unchanged. Non-trivial = indent outside the range, or nesting >= 2 with an empty container or a string/key that needs escaping. Distinct = distinct FNV-64a hash of the case JSON.",
+		"rapid-generated value trees (as C02, shared instances, 1001-1500 nesting levels and containers obtained by parsing lenient spellings included) x indent drawn from {-1000,-3,-1,0..10,11,14,2^40} weighted to the boundaries. Inside 0..10 the output must be non-empty, accepted by the strict scanner, denote the generated tree, equal byte-for-byte the canonical layout re-created from its own raw tokens, consist of exactly the raw tokens of String() (members matched by key), and be read back by the library as the same container with the same kinds; outside it must panic; container unchanged. Non-trivial = indent outside the range, or nesting >= 2 with an empty container or a string/key that needs escaping. Distinct = distinct FNV-64a hash of the case JSON. One case in four builds the container through the construction routes of BuildVariant (lists that are results of SubList / Concat, typed-slice origin, ...); long lists and wide objects also hold a few nested containers.",
 		GenC16, CheckC16)
 }
 
